@@ -8,8 +8,11 @@ pub mod c05;
 pub mod c06;
 pub mod c06_catalogue;
 pub mod c06_dbgnorm;
+pub mod c08;
+pub mod c09;
 pub mod c10;
 pub mod c11;
+pub mod c12;
 pub mod c13;
 pub mod c14;
 pub mod c15;
@@ -18,6 +21,7 @@ pub mod c17;
 pub mod c18;
 pub mod c19;
 pub mod c20;
+pub mod c23;
 pub mod c24;
 pub mod c25;
 pub mod c26;
@@ -34,6 +38,10 @@ pub mod df;
 pub mod projgen;
 pub mod robust_worker;
 
+#[path = "../gen_text.rs"]
+pub mod gen_text;
+#[path = "../gen_fmt.rs"]
+pub mod gen_fmt;
 #[path = "../gen_abs.rs"]
 pub mod gen_abs;
 #[path = "../gen_synth.rs"]
@@ -53,8 +61,11 @@ pub fn registry() -> Vec<(&'static str, CheckFn)> {
         ("C04", c04::run as CheckFn),
         ("C05", c05::run as CheckFn),
         ("C06", c06::run as CheckFn),
+        ("C08", c08::run as CheckFn),
+        ("C09", c09::run as CheckFn),
         ("C10", c10::run as CheckFn),
         ("C11", c11::run as CheckFn),
+        ("C12", c12::run as CheckFn),
         ("C13", c13::run as CheckFn),
         ("C14", c14::run as CheckFn),
         ("C15", c15::run as CheckFn),
@@ -63,6 +74,7 @@ pub fn registry() -> Vec<(&'static str, CheckFn)> {
         ("C18", c18::run as CheckFn),
         ("C19", c19::run as CheckFn),
         ("C20", c20::run as CheckFn),
+        ("C23", c23::run as CheckFn),
         ("C24", c24::run as CheckFn),
         ("C25", c25::run as CheckFn),
         ("C26", c26::run as CheckFn),
@@ -89,8 +101,11 @@ pub fn replay(path: &str) -> i32 {
         "C01" => c01::replay(&doc),
         "C04" => c04::replay(&doc),
         "C06" => c06::replay(&doc),
+        "C08" => c08::replay(&doc),
+        "C09" => c09::replay(&doc),
         "C10" => c10::replay(&doc),
         "C11" => c11::replay(&doc),
+        "C12" => c12::replay(&doc),
         "C13" => c13::replay(&doc),
         "C14" => c14::replay(&doc),
         "C15" => c15::replay(&doc),
@@ -99,6 +114,7 @@ pub fn replay(path: &str) -> i32 {
         "C18" => c18::replay(&doc),
         "C19" => c19::replay(&doc),
         "C20" => c20::replay(&doc),
+        "C23" => c23::replay(&doc),
         "C24" => c24::replay(&doc),
         "C25" => c25::replay(&doc),
         "C26" => c26::replay(&doc),
